@@ -144,7 +144,7 @@ def withoutFresh (ob : String) : String :=
   | _ => ob
 
 def runCase (tmplS opsS extS obsS : String) : Result := Id.run do
-  let env : Env := ⟨genTables, parseExt extS⟩
+  let env : Env := ⟨drvTables, parseExt extS⟩
   match tmplOf env tmplS with
   | none => return ⟨"B", "cannot parse template"⟩
   | some t =>
